@@ -968,6 +968,7 @@ class SigVal:
 
 class ParamVal:
     POSITIONAL_OR_KEYWORD = 'POSITIONAL_OR_KEYWORD'
+    POSITIONAL_ONLY = 'POSITIONAL_ONLY'
     VAR_POSITIONAL = 'VAR_POSITIONAL'
     VAR_KEYWORD = 'VAR_KEYWORD'
     KEYWORD_ONLY = 'KEYWORD_ONLY'
